@@ -17,6 +17,7 @@ import PgProofs.GenoIter
 import PgProofs.GenoValid
 import PgProofs.GenoValidate
 import PgProofs.GenoBind
+import PgProofs.GenoRandom
 namespace Pg.Geno
 
 /-! ### Full statements -/
@@ -68,6 +69,13 @@ theorem C11_bind_partial (g : Spec) (d : DNA) (hd : floatLeaves d = true) :
     g.bind d = true ↔ Valid g d := by
   unfold Valid
   rw [bind_eq_valid g d hd]
+
+/-- Random generation always returns a member: for every spec and EVERY oracle stream (recorded
+results of `sample` / `randint` / `uniform`) on which the model's `random_dna` returns at all —
+i.e. whose draws respect the contract of `random.Random` — the result satisfies the constraints. -/
+theorem C11_random (g : Spec) (o : List Draw) (d : DNA) (rest : List Draw)
+    (h : g.random o = some (d, rest)) : Valid g d :=
+  random_valid g o d rest h
 
 /-! ### Proved: specs without multi-choices (spaces, single choices, conditional sub-spaces of any
 depth and width) -/
@@ -159,6 +167,8 @@ def exampleMulti (d s : Bool) : Spec :=
 
 example : ∀ d s, (exampleMulti d s).iter 40 = some ((exampleMulti d s).all, true) := by decide
 example : ∀ d s, (exampleMulti d s).size = some (exampleMulti d s).all.length := by decide
+example : ((exampleMulti true true).random [.sample [2, 1], .sample [0]]).isSome = true := by decide
+example : ((exampleMulti false true).random [.randint 1, .randint 1, .sample [1], .sample [0]]).isSome = true := by decide
 example : (exampleMulti true true).all.length = 5 ∧ (exampleMulti false false).all.length = 16 := by decide
 
 end Pg.Geno
